@@ -138,7 +138,7 @@ fn name_strategy() -> BoxedStrategy<String> {
         3 => "[a-zA-Z0-9_-]{1,10}".prop_map(|s| s),
         // printable characters without quote, CR, LF
         3 => "[^\\p{C}\"]{1,10}".prop_map(|s| s),
-        1 => prop_oneof![Just("a b; c=d".to_string()), Just("caf\u{e9} \u{65e5}\u{672c}".to_string()), Just("name=x; filename=y".to_string()), Just("\\".to_string()), Just("a'b".to_string())],
+        1 => prop_oneof![Just(String::new()), Just(" ".to_string()), Just("a b; c=d".to_string()), Just("caf\u{e9} \u{65e5}\u{672c}".to_string()), Just("name=x; filename=y".to_string()), Just("\\".to_string()), Just("a'b".to_string())],
     ]
     .boxed()
 }
